@@ -16,10 +16,19 @@ import (
 )
 
 type verifKeyModel struct {
-	exists   bool // a current, non-delete-marker object
-	body     []byte
-	ct       *string
-	versions int // rows that keep the bucket non-empty (versions and delete markers)
+	exists  bool // a current, non-delete-marker object
+	body    []byte
+	ct      *string
+	nonNull int  // versions and delete markers with a real version id
+	hasNull bool // a "null" version or "null" delete marker exists
+}
+
+// versions: rows that keep the bucket non-empty
+func (k verifKeyModel) versions() int {
+	if k.hasNull {
+		return k.nonNull + 1
+	}
+	return k.nonNull
 }
 
 type verifUploadModel struct {
@@ -104,14 +113,14 @@ func (m *verifModel) wrote(k int, body []byte, ct *string) {
 	km := &m.keys[k]
 	km.exists, km.body, km.ct = true, body, ct
 	if m.versioning == 1 {
-		km.versions++
+		km.nonNull++ // a new version with its own id
 	} else {
-		km.versions = 1
+		km.hasNull = true // the null version is created or replaced in place
 	}
 }
 
 func (m *verifModel) empty() bool {
-	return m.keys[0].versions == 0 && m.keys[1].versions == 0 && !m.up.active
+	return m.keys[0].versions() == 0 && m.keys[1].versions() == 0 && !m.up.active
 }
 
 func verifIsAbsent(err error, m *verifModel) bool {
@@ -193,11 +202,11 @@ func verifApply(e *verifEnv, m *verifModel, op verifOp) {
 		km.exists, km.body, km.ct = false, nil, nil
 		switch m.versioning {
 		case 0:
-			km.versions = 0
+			km.hasNull = false
 		case 1:
-			km.versions++ // a delete marker on top
+			km.nonNull++ // a delete marker on top
 		case 2:
-			km.versions = 1 // the null version is replaced by a null delete marker
+			km.hasNull = true // the null version (if any) is replaced by a null delete marker
 		}
 	case opMPCreate:
 		verifAssume(!m.up.active)
@@ -339,6 +348,11 @@ func verifSetup(e *verifEnv, m *verifModel, which int) {
 		script(verifOp{kind: opCreateBucket})
 		verifSetVersioning(e, m, 2)
 		script(verifOp{kind: opPut, key: 0, body: x, ct: 1})
+	case 11: // written while versioning was enabled, then versioning suspended
+		script(verifOp{kind: opCreateBucket})
+		verifSetVersioning(e, m, 1)
+		script(verifOp{kind: opPut, key: 0, body: x, ct: 1})
+		verifSetVersioning(e, m, 2)
 	case 10: // two-part object a (put + append) and a pending upload on b
 		script(verifOp{kind: opCreateBucket}, verifOp{kind: opPut, key: 0, body: x, ct: 1}, verifOp{kind: opAppend, key: 0, body: y}, verifOp{kind: opMPCreate, key: 1, ct: 2})
 	case 9: // pending upload on a holding only part 2 (a gap)
